@@ -361,19 +361,20 @@ def exch_capacity(d, db):
 
 @st.composite
 def surf(draw, eq_sol, balanced, db="phreeqc.dat"):
-    """Known finding on the pinned tree (C02): with an ion-association database a SURFACE that has an explicit
-    constant-thickness diffuse layer (-donnan / -diffuse_layer) and has never been equilibrated gets its diffuse-layer
-    water (area x thickness) *in addition to* the water of the solution when it first reacts: 0.67 mol H per 6 g of
-    layer appear from nowhere (with pitzer.dat, or with -donnan debye_lengths, the water is taken out of the solution).
-    Such surfaces are therefore always defined with -equilibrate for phreeqc.dat / wateq4f.dat (the initial-surface
-    calculation is not a reaction step); `dl_equil_forced` marks the cases where the draw asked for a plain definition."""
+    """Known finding on the pinned tree (C02): a SURFACE that has an explicit constant-thickness diffuse layer
+    (-donnan / -diffuse_layer) and has never been equilibrated gets its diffuse-layer water (area x thickness) *in
+    addition to* the water of the solution when it first reacts: 0.67 mol H per 6 g of layer appear from nowhere.
+    Seen with phreeqc.dat, wateq4f.dat and pitzer.dat; only `-donnan debye_lengths` and the numerical-derivative path
+    (pitzer.dat + fixed-volume gas phase) take the water out of the solution instead.  Such surfaces are therefore always
+    defined with -equilibrate, for every database (the initial-surface calculation is not a reaction step);
+    `dl_equil_forced` marks the cases where the draw asked for a plain definition.  `db` is kept for callers."""
     model = draw(st.sampled_from(["no_edl", "ddl", "ddl", "donnan", "donnan", "diffuse"] if balanced else
                                  ["no_edl", "ddl", "ddl", "donnan", "donnan"]))
     plain = not (draw(st.integers(0, 3)) > 0 or model == "diffuse")
     d = {"model": model, "w": draw(cg.logu(1e-5, 1e-2, 3)), "s": draw(st.one_of(st.just(0.0), cg.logu(1e-6, 1e-3, 3))),
          "area": draw(st.sampled_from([600.0, 600.0, 100.0, 50.0])), "grams": draw(cg.logu(0.1, 10.0, 3)),
          "equil": None if plain else eq_sol}
-    if plain and model == "donnan" and db != "pitzer.dat":
+    if plain and model == "donnan":
         d["equil"] = eq_sol
         d["dl_equil_forced"] = True
     if model == "donnan":
